@@ -66,6 +66,13 @@ structure Meta (α : Type) where
   payload : Option Nat
   segs : List (Seg α)
 
+/-- what a producer thread has stamped but not yet published: `add_document` / `run` between
+`stamper.stamp()` and `operation_sender.send` (the deletes of a `run` batch are already queued),
+`delete_query` between `stamper.stamp()` and `delete_queue.push` -/
+inductive Pub (α : Type) where
+  | adds (b : List (α × Nat))
+  | del (d : DelOp α)
+
 structure WState (α : Type) where
   stamper : Nat
   /-- `IndexWriter::committed_opstamp`: assigned in `IndexWriter::new` only -/
@@ -82,6 +89,8 @@ structure WState (α : Type) where
   merges : List (Merge α)
   metas : Meta α
   nextId : Nat
+  /-- operations of producer threads between their two sub-steps -/
+  pendingPubs : List (Pub α) := []
 
 /-- events: the API calls and the internal steps -/
 inductive Event (α : Type) where
@@ -107,6 +116,15 @@ inductive Event (α : Type) where
   | mergeStart (ids : List Nat) (policy : Bool)
   /-- the `k`-th merge in flight ends -/
   | mergeEnd (k : Nat)
+  /-- first sub-step of `add_document` / `delete_query` / `run` on a producer thread: the stamps
+  are drawn (and the deletes of a batch queued); the pause points of `tantivy::verif` sit here.
+  (These calls take `&self`; `commit`, `prepare_commit` and `rollback` take `&mut self`, so in
+  safe Rust they cannot fall between the two sub-steps of a call - the state machine allows it,
+  the statements about sub-steps do not rely on it.) -/
+  | stamp (op : Op α)
+  /-- second sub-step: the `k`-th stamped operation is published (adds sent to the channel, the
+  delete pushed to the queue) -/
+  | publish (k : Nat)
 
 /-- the API call an event stands for -/
 def Event.toOp {α : Type} : Event α → Option (Op α)
@@ -117,6 +135,7 @@ def Event.toOp {α : Type} : Event α → Option (Op α)
   | .commit p => some (.commit p)
   | .rollback => some .rollback
   | .prepare => some .prepare
+  | .stamp op => some op
   | _ => none
 
 /-- the history (API projection) of an event sequence -/
@@ -355,6 +374,23 @@ def step (s : WState α) : Event α → Option (WState α × Nat)
         let s1 := { s0 with committed := replaceIn s.committed m.ids res }
         some (saveMetas s1 s.metas.opstamp s.metas.payload, 0)
       else some (s0, 0)
+  | .stamp (.add d) =>
+    some ({ s with stamper := s.stamper + 1, pendingPubs := s.pendingPubs ++ [.adds [(d, s.stamper)]] }, s.stamper)
+  | .stamp (.del q) =>
+    some ({ s with stamper := s.stamper + 1, pendingPubs := s.pendingPubs ++ [.del { op := s.stamper, q := q }] },
+          s.stamper)
+  | .stamp (.batch items) =>
+    let r := items.foldl batchItem (s.stamper, s.log, [])
+    some ({ s with stamper := r.1 + 1, log := r.2.1, pendingPubs := s.pendingPubs ++ [.adds r.2.2] }, r.1)
+  | .stamp _ => none
+  | .publish k =>
+    match s.pendingPubs[k]? with
+    | none => none
+    | some (.adds b) =>
+      some ({ s with pendingPubs := s.pendingPubs.eraseIdx k,
+                     channel := if b.isEmpty then s.channel else s.channel ++ [b] }, 0)
+    | some (.del d) =>
+      some ({ s with pendingPubs := s.pendingPubs.eraseIdx k, log := s.log ++ [d] }, 0)
 
 /-- run an event sequence; `none` if some event was not enabled -/
 def run (s : WState α) : List (Event α) → Option (WState α)
